@@ -134,6 +134,11 @@ class ResourceScenario(ScenarioData):
             else:
                 self.scoreboard[i] = None
 
+        # The table has one slot more than the project period needs; that last slot
+        # starts at (or after) the project end and must never be booked.
+        if size > 0:
+            self.scoreboard[size - 1] = 2
+
         # Apply global leaves
         leaves = self.project.attributes.get("leaves", [])
         if leaves:
